@@ -286,7 +286,25 @@ fn emit(sink: &mut CaseSink, kind: &str, script: &[Rd]) {
         })
         .collect();
     let acc = accepts(&stream);
-    let (obs, truncated) = run_impl(script);
+    // watchdog: a decoder that has lost its place may ask for gigabytes or never come back
+    let (tx, rx) = std::sync::mpsc::channel();
+    let sc: Vec<Rd> = script.to_vec();
+    std::thread::spawn(move || {
+        let _ = tx.send(run_impl(&sc));
+    });
+    let (obs, truncated) = match rx.recv_timeout(std::time::Duration::from_secs(15)) {
+        Ok(x) => x,
+        Err(_) => {
+            let line = replay_line(script);
+            let extra = format!(
+                "\"direct_violations\":[{{\"id\":\"decoder-stuck\",\"line\":{},\"what\":\"FrameBuffer::read_from did not come back within 15 s on a {}-byte stream of well-formed frames cut into {} reads\"}}]",
+                coqfmt::json_str(&line), stream.len(), script.len()
+            );
+            sink.finish_mut(&extra);
+            // the stuck thread cannot be stopped: leave
+            std::process::exit(0);
+        }
+    };
     sink.count(&format!("kind:{}", kind));
     sink.count_n("truncated_reads", truncated);
     sink.count_n("frames_handed", obs.iter().map(|o| o.0.len() as u64).sum());
@@ -307,7 +325,13 @@ fn emit(sink: &mut CaseSink, kind: &str, script: &[Rd]) {
             r
         ))
     );
-    let line = script
+    let line = replay_line(script);
+    let nontrivial = obs.iter().map(|o| o.0.len()).sum::<usize>() >= 1 && script.len() >= 3;
+    sink.push_line(term, nontrivial, line);
+}
+
+fn replay_line(script: &[Rd]) -> String {
+    script
         .iter()
         .map(|r| match r {
             Rd::Chunk(b) => format!("c{}", hex(b)),
@@ -316,9 +340,7 @@ fn emit(sink: &mut CaseSink, kind: &str, script: &[Rd]) {
             Rd::IoErr => "X".into(),
         })
         .collect::<Vec<_>>()
-        .join(" ");
-    let nontrivial = obs.iter().map(|o| o.0.len()).sum::<usize>() >= 1 && script.len() >= 3;
-    sink.push_line(term, nontrivial, line);
+        .join(" ")
 }
 
 fn parse_line(line: &str) -> Option<Vec<Rd>> {
